@@ -1,5 +1,5 @@
 CONSTANTS
-  Dts = {"i8", "i16", "i32", "i64", "u8", "u16", "u32", "u64", "f32", "f64", "str8", "opq4", "cmp"}
+  Dts = {"i8", "i16", "i32", "i64", "u8", "u16", "u32", "u64", "f32", "f64", "str8", "opq4", "cmp", "arr3", "enumn"}
   Extents1 = {1, 2, 3, 5, 7}
   Extents2 = {1, 2, 3, 5}
   Extents3 = {}
